@@ -137,7 +137,8 @@ def check_case(ctx, g, model=None, limit=5.0):
             ctx.count("judged")
         if model is not None:
             model.add("solve", dict(wire.game_payload(g), prune=prune), expect=o,
-                      inp={"game": gen.desc(g), "prune": prune}, suite="corr.rewards")
+                      inp={"game": gen.desc(g), "prune": prune}, suite="corr.diagnostics",
+                      cmp=wire.staged(ctx, {"diag"}, ("outcome", "probs", "reachstrat", "nodes", "rewards", "final")))
     ctx.case({"game": gen.desc(g)}, nt)
     ctx.count("family=" + str(g.get("_meta", {}).get("family", "?")).split(":")[0])
 
